@@ -41,7 +41,7 @@ GInit ==
     /\ active = TRUE /\ since = 100
     /\ svc = [s \in Sig |-> [st |-> "avail", price |-> 10000]]
     /\ pending = {} /\ subs = {} /\ nsub = 0 /\ mempool = <<>>
-    /\ lastPoll = 101 /\ out = "init"
+    /\ lastPoll = 101 /\ down = FALSE /\ out = "init"
     /\ calm = (mode = "live" /\ \A s \in Sig : feeds[s].iv > 0 => TimingOK(feeds[s].iv))
     /\ mode = "live" => calm
     /\ waited = [s \in Sig |-> 0] /\ rejSeen = FALSE
@@ -89,10 +89,13 @@ FaultsNext ==
     /\ UNCHANGED <<mode, c0, stg, idle>>
     /\ \/ \E dt \in {1, 1, 2, 7}, q \in Requotes(FALSE) : TickWith(dt, q) /\ Add(<<[e |-> "Tick", dt |-> dt]>> \o SvcStep(q))
        \/ Poll /\ Add(<<[e |-> "Poll"]>>)
-       \/ \E r \in subs, res \in {"ok", "err", "chk"} : Bcast(r.id, res) /\ Add(<<[e |-> "Bcast", id |-> r.id, r |-> res]>>)
+       \/ \E r \in subs, res \in {"ok", "err", "chk", "oog"} : Bcast(r.id, res) /\ Add(<<[e |-> "Bcast", id |-> r.id, r |-> res]>>)
        \/ \E r \in subs, res \in {"found", "timeout"} : TxResult(r.id, res) /\ Add(<<[e |-> "TxResult", id |-> r.id, r |-> res]>>)
        \/ \E d \in 0..par.D, k \in SlotChoices \cup {0} : Block(d, k) /\ Add(<<[e |-> "Block", d |-> d]>>)
        \/ \E nf \in FeedLists : nf # feeds /\ SetFeeds(nf) /\ Add(<<[e |-> "SetFeeds", f |-> nf]>>)
+       \* a local prerequisite of submitPrice breaks (which one is the driver's business) or recovers
+       \/ \E kind \in {"key", "key", "auth", "sim"} :
+             Env(~down) /\ Add(<<[e |-> "Env", down |-> IF down THEN <<>> ELSE <<kind>>]>>)
 
 GNext ==
     IF Last THEN /\ Svc(svc) /\ Add(<<[e |-> "Svc", q |-> svc]>>) /\ UNCHANGED <<mode, c0, stg, idle>>
